@@ -29,9 +29,13 @@ class Session:
         self.sent_open = False
         self.sent_ka = False
         self.closed_by = None
+        self.sent_log: list[tuple] = []  # (mono, cumulative bytes after this message, type)
+        self._sent_bytes = 0
 
     def send(self, data: bytes, cuts=None, delays=None) -> None:
         self.speaker.world.rec('spk-send', spk=self.speaker.name, sess=self.index, n=len(data), type=data[18] if len(data) > 18 else -1)
+        self._sent_bytes += len(data)
+        self.sent_log.append((self.speaker.world.loop.mono, self._sent_bytes, data[18] if len(data) > 18 else -1))
         self.conn.send(data, cuts, delays)
 
     def close(self, delay=None) -> None:
